@@ -240,8 +240,26 @@ for _k in ('DynamicTimeSeriesBucket', 'DynamicBucket', 'DynamicBucketDataset'):
     SEARCHES[_k] = _bucket_search
 
 
+PROP_SEARCH = {'C09': 'isolation', 'C10': 'cache_histories', 'C14': 'catch_epochs', 'C15': 'split_exhaustive',
+               'C18': 'sort_group'}
+
+
+def _prop_search(rep):
+    from harness import more_standins
+    fn = PROP_SEARCH.get(rep.get('property'))
+    if fn is None:
+        return None
+    c, f = getattr(more_standins, fn)('thorough')
+    if f:
+        return {'reproduced': True, 'cases_searched': c, 'class': fn, 'scenario': f[0]['scenario'], 'mismatches': f[0]['mismatches']}
+    return {'reproduced': False, 'cases_searched': c, 'class': fn}
+
+
 def search(cls, meth, rep):
     f = SEARCHES.get(meth) or SEARCHES.get(cls)
     if f is None:
+        r = _prop_search(rep)
+        if r is not None:
+            return r
         return {'reproduced': False, 'note': 'no native scenario set for %s.%s' % (cls, meth)}
     return f(rep)
